@@ -1204,22 +1204,6 @@ fn get_nonterminals_resolution_order(
     let mut path: Vec<(Ustr, HumanSpan)> = Default::default();
 
     let not_depended_on_vars = get_not_depended_on_nonterminals(&dependency_graph);
-    if not_depended_on_vars.is_empty() {
-        // Take any vertex and compute a sample cycle to illustrate to the user
-        let any_vertex = dependency_graph.keys().next().unwrap();
-        path.push((
-            *any_vertex,
-            nonterminal_definitions.get(any_vertex).unwrap().lhs_span,
-        ));
-        traverse_nonterminal_dependencies_dfs(
-            *any_vertex,
-            &dependency_graph,
-            &mut path,
-            &mut visited,
-            &mut result,
-        )?;
-        unreachable!();
-    }
 
     for vertex in not_depended_on_vars {
         debug_assert!(!visited.contains(&vertex));
@@ -1237,6 +1221,34 @@ fn get_nonterminals_resolution_order(
         path.clear();
         result.push(vertex);
         debug_assert!(path.is_empty());
+    }
+
+    // Whatever no root reaches lies on a dependency cycle or hangs below one.  Start a search
+    // from each such nonterminal too, otherwise the cycle goes unnoticed and the expansion
+    // passes that rely on acyclicity recurse forever.
+    let mut remaining: Vec<Ustr> = dependency_graph
+        .keys()
+        .copied()
+        .filter(|vertex| !visited.contains(vertex))
+        .collect();
+    remaining.sort();
+    for vertex in remaining {
+        if visited.contains(&vertex) {
+            continue;
+        }
+        path.push((
+            vertex,
+            nonterminal_definitions.get(&vertex).unwrap().lhs_span,
+        ));
+        traverse_nonterminal_dependencies_dfs(
+            vertex,
+            &dependency_graph,
+            &mut path,
+            &mut visited,
+            &mut result,
+        )?;
+        path.clear();
+        result.push(vertex);
     }
 
     // Filter out nonterminals that don't depend on any other as they are already fully resolved.
